@@ -178,7 +178,43 @@ def w2b_bracket_helpers(prog, ctx, rule="W2"):
             ctx.inconclusive(rule, "%s: bracketed means '[' first and ']' last" % fname, f.where, "%d tests that combine the two bracket comparisons" % len(shapes))
             continue
         x, (op, neg) = shapes[0]
-        if op == "and":
+        # the two comparisons themselves: the FIRST character with '[', the LAST one (index strlen - 1) with ']', each by equality
+        wrong = None
+        pname = f.params[0]["name"]
+        for cmpn in [y for y in x.child("cond").walk() if y.k == "BinaryOperator" and y.j.get("op") in ("==", "!=")]:
+            a9, b9 = cmpn.children[0].strip(), cmpn.children[1].strip()
+            ch = b9.const_value() if a9.const_value() is None else a9.const_value()
+            side = a9 if a9.const_value() is None else b9
+            if ch not in (ord("["), ord("]")):
+                continue
+            if cmpn.j["op"] != "==":
+                wrong = wrong or (cmpn, "compared with `!=`")
+            st9 = render(side)
+            if ch == ord("["):
+                if st9 not in ("*" + pname, pname + "[0]"):
+                    wrong = wrong or (cmpn, "'[' is looked for at `%s`, not at the first character" % st9)
+            else:
+                ixn = side.children[1] if side.k == "ArraySubscriptExpr" else None
+                it = render(ixn) if ixn is not None else ""
+                if ixn is not None and ixn.strip().k == "DeclRefExpr":
+                    ds9 = [r9 for l9, r9, s9 in f.assignments() if (l9["name"] if isinstance(l9, dict) else render(l9)) == it and r9 is not None]
+                    if len(ds9) == 1:
+                        it = render(ds9[0])
+                elif ixn is not None:
+                    for l9, r9, s9 in f.assignments():
+                        nm9 = l9["name"] if isinstance(l9, dict) else render(l9)
+                        if r9 is not None and re.search(r"(?<![\w$.])%s(?![\w$.])" % re.escape(nm9), it) and len([1 for l8, r8, s8 in f.assignments() if (l8["name"] if isinstance(l8, dict) else render(l8)) == nm9]) == 1:
+                            it = re.sub(r"(?<![\w$.])%s(?![\w$.])" % re.escape(nm9), "(" + render(r9) + ")", it)
+                itn = it.replace("(", "").replace(")", "").replace(" ", "")
+                if itn != "strlen%s-1" % pname:
+                    wrong = wrong or (cmpn, "']' is looked for at index `%s`, not at the last character (strlen - 1)" % it)
+        chars = set(y.const_value() for y in x.child("cond").walk() if y.k == "CharacterLiteral")
+        if not {ord("["), ord("]")} <= chars:
+            wrong = wrong or (x.child("cond"), "the test does not compare with both '[' and ']'")
+        if wrong is not None and op == "and":
+            ctx.fail(rule, "%s: bracketed means '[' first and ']' last" % fname, wrong[0].where,
+                     "`%s`: %s" % (render(x.child("cond"))[:60], wrong[1]), key="bracket-test:%s" % fname)
+        elif op == "and":
             ctx.ok(rule, "%s: bracketed means '[' first and ']' last" % fname, x.where, "`%s`" % render(x.child("cond"))[:70])
         else:
             ctx.fail(rule, "%s: bracketed means '[' first and ']' last" % fname, x.where,
